@@ -148,3 +148,19 @@ def same_then_edit(rng, same_op):
     from the first call is stale when the call under test arrives"""
     e = [op for op in random_prefix(rng, n=(3, 3)) if op["op"] in EDIT_OPS][:1] or [{"op": "cutoff", "m": 9, "r": 4}]
     return [same_op] + e
+
+
+def wrapper_agrees(twin, inner, after, what):
+    """The Sequence-level method must do what the representation-level method it delegates to does (that one carries the
+    contract) and nothing else: `twin` is a copy taken right before the call, `inner(twin)` applies the representation-level
+    method to it; the result must equal the observation `after` of the real object.  Returns a list of failures."""
+    from vmon.monitors import LOG
+    inner(twin)
+    o = obs(twin)
+    LOG.n("entry_points.sequence_vs_representation_level")
+    if o["events"] != after["events"] or o["dur"] != after["dur"]:
+        lost = [e for e in o["events"] if e not in after["events"]][:3]
+        new = [e for e in after["events"] if e not in o["events"]][:3]
+        return [fail("sequence_level_differs_from_representation_level", {"operation": what, "only_representation_level": lost,
+                                                                          "only_sequence_level": new, "dur": (o["dur"], after["dur"])})]
+    return []
